@@ -52,6 +52,7 @@ def generate(ck):
         {"cls": "single", "table": {"kind": "synthetic", "family": "const-diffusivity", "prm": [0.3, 0.6, 0.2], "n": 200, "p_lo": 50.0, "p_hi": 9000.0, "grid": "uniform", "seed": 0}, "p_i": 8000.0, "p_f": 7900.0, "r": 8, "t_end": 6.0},
         {"cls": "single", "table": {"kind": "shipped", "name": "pvt_gas"}, "p_i": 8000.0, "p_f": 7900.0, "r": 8, "t_end": 6.0},
         {"cls": "single", "table": {"kind": "shipped", "name": "pvt_gas"}, "p_i": 8000.0, "p_f": 1000.0, "r": 16, "t_end": 3.0},
+        {"cls": "single", "table": {"kind": "shipped", "name": "haynesville", "rows": "descending"}, "p_i": 8000.0, "p_f": 2000.0, "r": 8, "t_end": 5.0},
     ]
     n = 2 if ck.tier == "quick" else 60
     for i in range(n):
@@ -72,6 +73,8 @@ def generate(ck):
         p_i, p_f = sim.pick_pressures(tab, float(rng.random()), ratio)
         if p_f >= p_i:
             p_f = 0.5 * (p_i + tables.pressure_range(tab)[0])
+        if i % 3 == 2:
+            t = dict(t, rows=str(rng.choice(["descending", "shuffled"])), rows_seed=int(rng.integers(0, 10**6)))
         descs.append({"cls": "single", "table": t, "p_i": p_i, "p_f": p_f, "r": r, "t_end": t_end})
     return descs
 
@@ -100,8 +103,12 @@ def run_case(ck, desc):
             warnings.simplefilter("ignore")
             fluid = FlowProperties(tab, p_i)
         m_i, m_f = float(fluid.m_i), float(fluid.m_scaled_func(p_f))
-        a_i = float(fluid.alpha(m_i))
-        a = lambda u: np.asarray(fluid.alpha(u), dtype=float) / a_i  # noqa: E731
+        # the problem's coefficient a(m) = alpha(m) / alpha(m_i) is read from the table by the harness
+        # itself (sorted columns), not through the object's own lookup
+        o_ = np.argsort(np.asarray(fluid.pvt_props["m-scaled"], dtype=float), kind="stable")
+        ms_s, al_s = np.asarray(fluid.pvt_props["m-scaled"], dtype=float)[o_], np.asarray(fluid.pvt_props["alpha"], dtype=float)[o_]
+        a_i = float(np.interp(m_i, ms_s, al_s))
+        a = lambda u: np.interp(np.asarray(u, dtype=float), ms_s, al_s) / a_i  # noqa: E731
         lad = np.linspace(m_f, m_i, 400)
         av = a(lad)
         chi = float(av.max() / av.min())
